@@ -1,4 +1,5 @@
-\* thorough: two nodes, one client, a services link with one pseudo-client, longer horizon; safety, exhaustive
+\* quick: two nodes (leader and follower, one change of leader), one client and a services link
+\* with a pseudo-client; safety, exhaustive
 SPECIFICATION Spec
 CONSTANTS
     n1 = n1  n2 = n2  n3 = n3  c1 = c1  c2 = c2  k1 = k1  p1 = p1
@@ -10,7 +11,7 @@ CONSTANTS
     Interval = 2
     Exps = {1, 2}
     InitExp = 1
-    MaxTime = 4
+    MaxTime = 3
     MaxLag = 1
     MaxChanges = 1
     MaxPend = 1
